@@ -20,6 +20,8 @@
 #include <algorithm>
 #include <memory>
 #include <functional>
+#include <signal.h>
+#include <unistd.h>
 
 using namespace sim;
 using namespace xalanc;
@@ -637,7 +639,7 @@ struct TextGen {
 
 struct C04 : public Driver {
     const char* property() const override { return "C04"; }
-    void init() override { xalanInitOnce(); }
+    void init() override { xalanInitOnce(); loadKnown(); signal(SIGALRM, [](int) { static const char m[] = "\nT 0 run exceeded its 60 s safety net\n"; ssize_t r = write(1, m, sizeof m - 1); (void)r; _exit(80); }); }
 
     Json makePlan(uint64_t verifSeed, uint64_t run, const std::string& tier) override {
         uint64_t seed = runSeed(verifSeed, "C04", run);
@@ -709,25 +711,38 @@ struct C04 : public Driver {
     }
 
     // ---------------------------------------------------------------------------------------------------------------
-    std::set<std::string> minimisedAlready;   // (class|sig) this process has already minimised once
+    std::set<std::string> minimisedAlready;   // (class|sig) this process has already minimised once, or that KNOWN_FINDINGS.txt lists
+                                              // (the master does not gate those, so nobody would read the reduced script)
+    void loadKnown() {
+        const char* envp = getenv("VERIF_KNOWN_FINDINGS"); FILE* f = fopen(envp ? envp : "KNOWN_FINDINGS.txt", "r"); if (!f) return;
+        char line[4096];
+        while (fgets(line, sizeof line, f)) {
+            std::string l = line; if (l.compare(0, 8, "finding:") != 0 || l.find("property=C04 ") == std::string::npos) continue;
+            size_t c = l.find("class="), g = l.find("sig="); if (c == std::string::npos || g == std::string::npos) continue;
+            std::string cls = l.substr(c + 6, l.find_first_of(" \t\n", c) - (c + 6)), sig = l.substr(g + 4, l.find_first_of(" \t\n", g) - (g + 4));
+            minimisedAlready.insert(cls + "|" + sig);
+        }
+        fclose(f);
+    }
 
     void report(Result& res, Trace& tr, const Json& plan, const Script& s, const Probe& pr, const std::vector<Cfg>& involved, const std::string& family, bool wantClasses) {
         Sig g = sigOf(s, pr, wantClasses); if (!g.any) return;   // cannot happen: the caller saw the finding
-        std::string sig = g.cls + ":" + family + ":" + s.version + ":" + g.construct + (g.classes.empty() ? "" : "+" + g.classes);
-        tr.ev("violation " + g.cls + " " + sig);
+        std::string sig = g.cls + ":" + family + ":" + g.ver + (wantClasses ? ":" + g.pairs : "") + (g.extra.empty() ? "" : ":" + g.extra);
+        tr.ev("violation " + sig);
         Json sub = Json::object(); Json cf = Json::array(); for (auto& c : involved) cf.push(c.raw); sub["configs"] = cf;
         std::string key = g.cls + "|" + sig;
         if (!plan.boolean("minimised") && !minimisedAlready.count(key)) {
             minimisedAlready.insert(key);
             bool pipeline = false; for (auto& c : involved) if (c.ser == "pipeline") pipeline = true;
-            Script mn = minimise(g.reduced, pr, g.str(), wantClasses, pipeline ? 120 : 500);
-            sub["events"] = eventsToJson(mn); sub["cdata_elems"] = cdataToJson(mn); sub["minimised"] = true;
-            Sig fin = sigOf(mn, pr, false); if (fin.any) g.detail = fin.detail;
+            Script mn = minimise(g.reduced, pr, g.str(), wantClasses, pipeline ? 80 : 250);
+            sub["events"] = eventsToJson(mn); sub["cdata_elems"] = cdataToJson(mn); sub["version"] = mn.version; sub["minimised"] = true;
+            FindingP fin = probeOn(mn, pr); if (fin) g.detail = fin->detail;
         }
         res.violateSub(g.cls, sig, g.detail + " [" + s.encoding + ", XML " + s.version + "]", sub);
     }
 
     void execute(const Json& plan, Result& res, Trace& tr) override {
+        alarm(60);      // safety net only: a run takes milliseconds
         Script s = scriptFromPlan(plan);
         std::vector<Cfg> cfgs; for (auto& c : plan.at("configs").a) if (c.t == Json::Obj) cfgs.push_back(cfgFromJson(c));
         Eval ev(s);
@@ -764,6 +779,7 @@ struct C04 : public Driver {
                 if (probeKnob(ev, first, other)) { distinct.push_back(kv.second[j]);
                     report(res, tr, plan, s, [first, other](Eval& e) { return probeKnob(e, first, other); }, { first, other }, ev.family(first), true); }
             }
+            if (first.ser == "legacy") continue;     // FormatterToXML is judged by agreement with the factory product (oracle 4)
             for (size_t i : distinct) {
                 const Cfg c = cfgs[i]; res.count("roundtrips_checked");
                 FindingP f = probeSingle(ev, c);
@@ -774,7 +790,8 @@ struct C04 : public Driver {
         // oracle 4
         if (groups.count("factory") && groups.count("legacy")) {
             const Cfg fac = cfgs[groups["factory"][0]], leg = cfgs[groups["legacy"][0]]; res.count("agreement_checked");
-            if (probeAgree(ev, fac, leg)) report(res, tr, plan, s, [fac, leg](Eval& e) { return probeAgree(e, fac, leg); }, { fac, leg }, "factory-vs-legacy:" + ev.enc.family, true);
+            if (probeAgree(ev, fac, leg)) report(res, tr, plan, s, [fac, leg](Eval& e) { return probeAgree(e, fac, leg); }, { fac, leg }, "legacy", true);
+            else res.count("outcome:serializers-agree");
         }
         // oracle 5
         for (size_t i : faulted) {
@@ -786,6 +803,7 @@ struct C04 : public Driver {
             else res.count("fault-not-reached");
             if (f) report(res, tr, plan, s, [c](Eval& e) { return probeFault(e, c); }, { c }, ev.family(c), false);
         }
+        alarm(0);
         res.count("serializer_runs", (int64_t)g_serializerRuns); res.count("parses", (int64_t)g_parses); res.count("evals_for_signatures", (int64_t)g_evals);
         g_serializerRuns = g_parses = g_evals = 0;
     }
